@@ -358,6 +358,44 @@ func evalIt(ic itCase) *Failure {
 		}
 		got, cl, what = drive(it.Next, func() string { return is(it.Value()) }, limitOf(len(want)))
 	case "RestrictedPrefixProduct":
+		if ic.PredF == "few-ones" || ic.PredF == "small-values" {
+			// long or wide factor lists whose full product does not fit an int; the predicate keeps the family small
+			lim := 2
+			accept := func(a []int) bool {
+				if ic.PredF == "small-values" {
+					return a[len(a)-1] < lim
+				}
+				ones := 0
+				for _, x := range a {
+					ones += x
+				}
+				return ones <= lim
+			}
+			var rec func(cur []int)
+			rec = func(cur []int) {
+				if len(cur) == len(P) {
+					want = append(want, is(cur))
+					return
+				}
+				for x := 0; x < P[len(cur)]; x++ {
+					nx := append(append([]int{}, cur...), x)
+					if accept(nx) {
+						rec(nx)
+					} else if ic.PredF == "small-values" {
+						break // monotone in the last coordinate
+					}
+				}
+			}
+			rec(nil)
+			it := itertools.RestrictedPrefixProduct(func(a []int) bool {
+				if len(a) == 0 || len(a) > len(P) || a[len(a)-1] < 0 || a[len(a)-1] >= P[len(a)-1] {
+					panic(fmt.Sprintf("predicate called on %v which is not a prefix of the product", a))
+				}
+				return accept(a)
+			}, append([]int{}, P...)...)
+			got, cl, what = drive(it.Next, func() string { return is(it.Value()) }, limitOf(len(want)))
+			break
+		}
 		// prefix tree nodes in odometer order of (length, tuple): index by enumeration
 		nodes := prefixNodes(P)
 		idx := map[string]int{}
@@ -848,6 +886,12 @@ func runC15(c *Ctx) {
 		}
 		add(itCase{It: "Product", P: v})
 	}
+	for _, k := range []int{31, 32, 33, 62, 63, 64, 65, 96, 128} {
+		add(itCase{It: "RestrictedPrefixProduct", P: repeatInt(2, k), PredF: "few-ones"})
+	}
+	add(itCase{It: "RestrictedPrefixProduct", P: []int{1 << 16, 1 << 16, 1 << 16, 1 << 16}, PredF: "small-values"})
+	add(itCase{It: "RestrictedPrefixProduct", P: []int{1 << 16, 3, 1 << 16, 1 << 16, 1 << 16}, PredF: "small-values"})
+	add(itCase{It: "RestrictedPrefixProduct", P: []int{1 << 21, 1 << 21, 1 << 22}, PredF: "small-values"})
 	// RestrictedPrefixProduct: all predicates for factor lists with at most 14 prefixes
 	rppLimit := 14
 	if c.Thorough() {
@@ -995,6 +1039,9 @@ func repeatInt(v, l int) []int {
 }
 
 func replayC15(kind string, raw json.RawMessage) *Failure {
+	if kind != "it" {
+		return unsupportedKind(kind)
+	}
 	var ic itCase
 	if err := json.Unmarshal(raw, &ic); err != nil {
 		return &Failure{Class: "replay/bad-file", What: err.Error()}
